@@ -226,6 +226,9 @@ def gen_literal(rng, allow_suffix=True, allow_sign=True):
         suffix = rng.choice('kKMGTPZY')
         if suffix in 'PZY' and len(canon) > 6:
             suffix = 'k'
+    if allow_suffix and rng.random() < 0.04:
+        # a signed or zero literal with a magnitude suffix, M and G being also unit words (metre, gram)
+        return ('slit', rng.choice('-+-'), rng.choice(['0', '2', '1.5', canon]), rng.choice('MGkMGT'))
     if allow_sign and rng.random() < 0.15:
         return ('slit', rng.choice('-+-'), canon, suffix)
     return ('lit', canon, suffix)
@@ -239,7 +242,10 @@ def gen_tree(rng, depth, opts):
         else:
             leaf = gen_literal(rng, opts.get('suffix', True))
         if opts.get('detached', True) and rng.random() < 0.12:
-            return ('sign', rng.choice('-+-'), leaf)
+            node = ('sign', rng.choice('-+-'), leaf)
+            if rng.random() < 0.25:
+                node = ('sign', rng.choice('-+-'), node)          # the operand of a sign may itself carry a sign: - - 3
+            return node
         return leaf
     r = rng.random()
     if r < 0.62:
@@ -268,6 +274,8 @@ def gen_tree(rng, depth, opts):
                 node = ('paren', node)
         if opts.get('group_sign', True) and rng.random() < 0.12:
             node = ('sign', rng.choice('-+-'), node)
+            if rng.random() < 0.2:
+                node = ('sign', rng.choice('-+-'), node)
         return node
     if opts.get('juxt', True) and rng.random() < 0.5:
         j = _juxt([gen_tree(rng, 0, opts) for _ in range(rng.randint(2, 4))])
@@ -333,7 +341,9 @@ def classes(node, out=None, ctx='top'):
             out.add('fraction')
     elif k == 'sign':
         inner = node[2][0]
-        if inner == 'paren':
+        if inner == 'sign':
+            out.add('sign-before-sign')
+        elif inner == 'paren':
             out.add('detached-sign-before-group')
         elif inner == 'slit':
             out.add('detached-sign-before-signed-literal')
